@@ -129,7 +129,7 @@ PROPS = {
         "partial": "runtime behaviour (select!, mutex, OS UDP stack) not modelled",
     },
     "C20": {
-        "suites": ["apply", "pair"],
+        "suites": ["apply", "pair", "cluster"],
         "level_text": "Theorems C20_reset_iff, C20_reset_effect, C20_flag_iff (any number of resets, distinct members), C20_ack_callbacks / C20_synack_callbacks (exactly one invocation iff some copy reset), C20_syn_no_callback, C20_badcluster_no_callback; tied to lib.rs/state.rs by differential runs counting real callback invocations.",
         "level_note": _COMMON_NOTE + "Distinct members per delta is guaranteed by DeltaBuilder for every decoded delta.",
         "assumptions": [],
